@@ -5,7 +5,8 @@
   OBLIGATIONS (checked by the harness: every name is a theorem of this file, axioms audited):
     strategies_order supports_probe_agrees union_is_first_nonNone single_eq_generic
     forest_positional_differs true_pred_irrelevant self_prefix_irrelevant_partial
-    simple_eq_generic_partial
+    simple_eq_generic_partial equivalent_spellings_agree self_prefix_irrelevant_nonpositional
+    dslash_is_descendant
 -/
 import Genshi.Model.Path
 import Genshi.Model.PathParse
@@ -14,6 +15,7 @@ import Genshi.Gen.Path
 import Genshi.Lemmas.PathSingle
 import Genshi.Lemmas.PathSpelling
 import Genshi.Lemmas.PathSimple
+import Genshi.Lemmas.PathNonPos
 namespace Genshi.Props.C17
 open Genshi Genshi.Path
 
@@ -236,6 +238,156 @@ theorem self_prefix_irrelevant_partial (s0 : Step) (rest : LocPath) (ns : NsMap)
   obtain ⟨heq, _⟩ := hk.2
   rw [heq]
   simp [runOne, gStep_end]
+
+/-! ## Spellings with the same XPath meaning, for paths without position tests -/
+
+open Genshi.Path.Ref in
+/-- **Equivalent spellings match identically.**  Let `p1`, `p2` be location paths over the
+    child / descendant / descendant-or-self / self axes, with any node tests and predicates
+    that are not position tests.  If they select the same nodes in XPath 1.0 (`Ref.reach`) on
+    an element tree, then GenericStrategy reports the same result for `p1` and for `p2` at
+    *every event* of the tree, whatever the caller does with the results (`skip`).
+    (Both matchers designate the XPath node set — `operand_nonpositional` —, and the per-event
+    results are determined by the set of marked nodes — `vals_eq_of_marks`.) -/
+theorem equivalent_spellings_agree (p1 p2 : LocPath) (ns : NsMap) (vs : Vars)
+    (hp1 : StepsOk ns vs p1) (hp2 : StepsOk ns vs p2)
+    (tag : QName) (attrs : AttrList) (kids : List Node)
+    (hcl : (Node.elem tag attrs kids).clean = true)
+    (hn1 : AllNodes (NodeFor p1 ns vs) (.elem tag attrs kids))
+    (hn2 : AllNodes (NodeFor p2 ns vs) (.elem tag attrs kids))
+    (hr : ∀ x : LNode, reach ns (toXVars vs) p1 ⟨[], .elem tag attrs kids⟩ x
+                      = reach ns (toXVars vs) p2 ⟨[], .elem tag attrs kids⟩ x) (skip : Bool) :
+    traceCaller (pathTest [p1] false (some .generic)).1 ns vs skip
+        (pathTest [p1] false (some .generic)).2 (Node.elem tag attrs kids).flatten
+      = traceCaller (pathTest [p2] false (some .generic)).1 ns vs skip
+        (pathTest [p2] false (some .generic)).2 (Node.elem tag attrs kids).flatten := by
+  simp only [traceCaller, pathTest, List.map_cons, List.map_nil, mkMatcher]
+  rw [operands_agree ns vs (toXVars vs) _ p1 p2 _ _ _ _
+    (operand_nonpositional p1 ns vs hp1 tag attrs kids hcl hn1)
+    (operand_nonpositional p2 ns vs hp2 tag attrs kids hcl hn2) hr]
+
+/-- **self_prefix_irrelevant** for paths without position tests: `./p` and `p` report the same
+    result at every event, for `p` starting on *any* of the four axes (this covers the
+    `self::` / `descendant-or-self::` first steps missing in `self_prefix_irrelevant_partial`,
+    where the two step lists differ in length), relative mode, GenericStrategy, both caller
+    behaviours, every element tree. -/
+theorem self_prefix_irrelevant_nonpositional (p : LocPath) (ns : NsMap) (vs : Vars) (hp : StepsOk ns vs p)
+    (tag : QName) (attrs : AttrList) (kids : List Node)
+    (hcl : (Node.elem tag attrs kids).clean = true)
+    (hn : AllNodes (NodeFor p ns vs) (.elem tag attrs kids)) (skip : Bool) :
+    traceCaller (pathTest [dot :: p] false (some .generic)).1 ns vs skip
+        (pathTest [dot :: p] false (some .generic)).2 (Node.elem tag attrs kids).flatten
+      = traceCaller (pathTest [p] false (some .generic)).1 ns vs skip
+        (pathTest [p] false (some .generic)).2 (Node.elem tag attrs kids).flatten := by
+  have hp' : StepsOk ns vs (dot :: p) := by
+    refine ⟨by simp, ?_, ?_, ?_, ?_⟩
+    · intro s hs
+      rcases List.mem_cons.mp hs with h | h
+      · subst h; simp [dot]
+      · exact hp.na s h
+    · intro s hs
+      rcases List.mem_cons.mp hs with h | h
+      · subst h; simp [dot, NodeTest.elemWf]
+      · exact hp.wf s h
+    · intro s hs
+      rcases List.mem_cons.mp hs with h | h
+      · subst h; simp [dot]
+      · exact hp.typed s h
+    · intro s hs
+      rcases List.mem_cons.mp hs with h | h
+      · subst h; simp [dot]
+      · exact hp.nonpos s h
+  have hn' : AllNodes (NodeFor (dot :: p) ns vs) (.elem tag attrs kids) := by
+    refine AllNodes.imp (fun n h => ?_) _ hn
+    obtain ⟨h1, h2, h3, h4⟩ := h
+    refine ⟨h1, h2, h3, ?_⟩
+    intro s hs
+    rcases List.mem_cons.mp hs with h | h
+    · subst h; intro q hq; simp [dot] at hq
+    · exact h4 s h
+  apply equivalent_spellings_agree (dot :: p) p ns vs hp' hp tag attrs kids hcl hn' hn
+  intro x
+  rw [reach_self ns (toXVars vs) dot p (by intro q hq; simp [dot] at hq) rfl]
+  simp [hitR, dot, Ref.testNode]
+
+def dosNode : Step := ⟨.descendantOrSelf, .node, []⟩
+
+open Genshi.Path.Ref in
+theorem reach_prefix_congr (ns : NsMap) (xvs : XVars) (q1 q2 : LocPath) (t : LNode)
+    (h : ∀ c, reach ns xvs q1 c t = reach ns xvs q2 c t) :
+    ∀ (pre : LocPath) (c : LNode), reach ns xvs (pre ++ q1) c t = reach ns xvs (pre ++ q2) c t := by
+  intro pre
+  induction pre with
+  | nil => exact h
+  | cons s pre ih =>
+    intro c
+    simp only [List.cons_append, reach]
+    apply List.any_congr rfl
+    intro m
+    exact ih m
+
+/-- **`//` is `descendant::`.**  Anywhere in a path without position tests,
+    `…/descendant-or-self::node()/child::t[…]/…` (the expansion of `…//t[…]/…`) and
+    `…/descendant::t[…]/…` report the same result at every event under GenericStrategy
+    (e.g. `.//b` and `descendant::b`, `a//b[@k]/c` and `a/descendant::b[@k]/c`). -/
+theorem dslash_is_descendant (pre : LocPath) (s : Step) (rest : LocPath) (hax : s.axis = .child)
+    (ns : NsMap) (vs : Vars) (hp : StepsOk ns vs (pre ++ dosNode :: s :: rest))
+    (tag : QName) (attrs : AttrList) (kids : List Node)
+    (hcl : (Node.elem tag attrs kids).clean = true)
+    (hn : AllNodes (NodeFor (pre ++ dosNode :: s :: rest) ns vs) (.elem tag attrs kids)) (skip : Bool) :
+    traceCaller (pathTest [pre ++ dosNode :: s :: rest] false (some .generic)).1 ns vs skip
+        (pathTest [pre ++ dosNode :: s :: rest] false (some .generic)).2 (Node.elem tag attrs kids).flatten
+      = traceCaller (pathTest [pre ++ withAxis .descendant s :: rest] false (some .generic)).1 ns vs skip
+        (pathTest [pre ++ withAxis .descendant s :: rest] false (some .generic)).2
+        (Node.elem tag attrs kids).flatten := by
+  have hmem : ∀ s' ∈ pre ++ withAxis .descendant s :: rest,
+      s' = withAxis .descendant s ∨ s' ∈ pre ++ dosNode :: s :: rest := by
+    intro s' hs'
+    rcases List.mem_append.mp hs' with h | h
+    · exact Or.inr (List.mem_append_left _ h)
+    · rcases List.mem_cons.mp h with h | h
+      · exact Or.inl h
+      · exact Or.inr (List.mem_append_right _ (List.mem_cons_of_mem _ (List.mem_cons_of_mem _ h)))
+  have hs : s ∈ pre ++ dosNode :: s :: rest := List.mem_append_right _ (by simp)
+  have hp' : StepsOk ns vs (pre ++ withAxis .descendant s :: rest) := by
+    refine ⟨by simp; omega, ?_, ?_, ?_, ?_⟩
+    · intro s' hs'
+      rcases hmem s' hs' with h | h
+      · subst h; simp [withAxis]
+      · exact hp.na s' h
+    · intro s' hs'
+      rcases hmem s' hs' with h | h
+      · subst h; exact hp.wf s hs
+      · exact hp.wf s' h
+    · intro s' hs'
+      rcases hmem s' hs' with h | h
+      · subst h; exact hp.typed s hs
+      · exact hp.typed s' h
+    · intro s' hs'
+      rcases hmem s' hs' with h | h
+      · subst h; exact hp.nonpos s hs
+      · exact hp.nonpos s' h
+  have hn' : AllNodes (NodeFor (pre ++ withAxis .descendant s :: rest) ns vs) (.elem tag attrs kids) := by
+    refine AllNodes.imp (fun n h => ?_) _ hn
+    obtain ⟨h1, h2, h3, h4⟩ := h
+    refine ⟨h1, h2, h3, ?_⟩
+    intro s' hs'
+    rcases hmem s' hs' with h | h
+    · subst h; exact h4 s hs
+    · exact h4 s' h
+  apply equivalent_spellings_agree _ _ ns vs hp hp' tag attrs kids hcl hn hn'
+  intro x
+  apply reach_prefix_congr
+  intro c
+  exact reach_dslash ns (toXVars vs) s rest
+    (nonpositional_of_numTyped ns vs s (hp.typed s hs) (hp.nonpos s hs)) hax c x
+
+-- non-vacuity: `.//c` and `descendant::c` on <r><a><c/></a><c/></r>: True at both <c>
+example : runTest (pathTest [[dot, dosNode, ⟨.child, .localName false ['c'], []⟩]] false (some .generic)).1 [] []
+    (pathTest [[dot, dosNode, ⟨.child, .localName false ['c'], []⟩]] false (some .generic)).2
+    (Node.elem ⟨[], ['r']⟩ [] [Node.elem ⟨[], ['a']⟩ [] [Node.elem ⟨[], ['c']⟩ [] []],
+       Node.elem ⟨[], ['c']⟩ [] []]).flatten
+    = [.none, .none, .bool true, .none, .none, .bool true, .none, .none] := by decide +kernel
 
 /-! ## SimplePathStrategy is an abstraction of GenericStrategy -/
 
